@@ -27,6 +27,27 @@ namespace vf
 
 namespace lib = ASAM::CMP;
 
+// Copies of library objects are used where the unchanged library's classes are copyable (they all are, implicitly); the helpers keep the
+// harness compiling against a tree in which a class lost its copy constructor - such a tree is judged by everything else.
+template <class D>
+std::unique_ptr<D> copyIfCopyable(const D& d)
+{
+    if constexpr (std::is_copy_constructible_v<D>)
+        return std::make_unique<D>(d);
+    else
+        return nullptr;
+}
+template <class D>
+D copyOrFresh(const D* src)
+{
+    if constexpr (std::is_copy_constructible_v<D>)
+    {
+        if (src)
+            return D(*src);
+    }
+    return D();
+}
+
 // ---------------------------------------------------------------------------------------------------
 // Snapshot of everything observable on a packet (getters only, no operator==)
 // ---------------------------------------------------------------------------------------------------
